@@ -250,6 +250,7 @@ static int recv_events(m_ctx_t *c, int timeout) {
                 msg = &evt->evt;
                 fetch_ms(&msg->ts, NULL);
                 M_INFO("'%s' received %u type evt.\n", mod->name, msg->type);
+                errno = 0; // do not mistake errno left by a previous user callback for a failure of this event
                 p = p->process(p, c, i, evt);
             }
             err = errno; // Store any errno that happened while consuming events
